@@ -42,6 +42,8 @@ def gen_map(rng, depth_dir, big=False):
                 lines.append(f"{t}{desc}\t/{rng.choice(LOCAL)}\t{rng.choice(['', 'example.org'])}\t{rng.choice(['', '70'])}")
             elif form == 5:    # URL:
                 lines.append(f"h{desc}\t{rng.choice(['URL:http://example.org/', 'URL:https://a.b/c?d=e', '/URL:http://x/', 'URL:mailto:admin@example.org', 'URL:news:comp.infosystems.gopher', 'URL:tel:+15550100'])}")
+            elif rng.random() < 0.15:   # degenerate: no type character / neither description nor selector
+                lines.append(rng.choice([f"\t/{rng.choice(LOCAL)}", f"{t}\t", "\t", f"{t}\t\t\t"]))
             else:              # extra fields, padding
                 lines.append(f"{t}{desc} \t /{rng.choice(LOCAL)} \t\t\t+")
     eol = rng.choice(["\n", "\r\n"])
@@ -61,6 +63,10 @@ def reference(data, base, srv):
             out.append(("i", ln.strip(), None, None, None))
             continue
         f = [x.strip() for x in ln.split("\t")]
+        if not f[0]:
+            # no type character: not a link; the line is shown as the text it carries
+            out.append(("i", ln.strip(), None, None, None))
+            continue
         itemtype, display = f[0][0], f[0][1:]
         sel = f[1] if len(f) > 1 and f[1] else display
         if not sel.startswith("/") and not sel.startswith("URL:"):
